@@ -678,9 +678,13 @@ Proof.
   unfold sw_unit_variant_of. cbv zeta. intros Hs H. apply mbind_ok in H as (n & s1 & Hn & H). unfold ret in H. injection H as <- _.
   unfold c15_variant_strict in Hs. apply andb_true_iff in Hs as [Hs _]. apply andb_true_iff in Hs as [Hr Ho].
   destruct (sw_ident_parts _ Hr) as (_ & _ & Hq). destruct (sw_ident_parts _ Ho) as (Hop & _ & _).
-  pose proof (sw_lift_camel_plain _ _ _ _ Hop Hn) as Hnp.
-  unfold sw_variant_ok. cbn [swv_name swv_raw swv_payload sw_payload_ok]. rewrite Hnp, andb_true_r. cbn [andb].
-  destruct (str_eqb (renamed (vid (variant_shared v))) n); [reflexivity|exact Hq].
+  pose proof (sw_lift_camel_plain _ _ _ _ Hop Hn) as Hcp.
+  (* fix 31: `_` in front of a digit-initial camelCased name, as in the algebraic arm *)
+  assert (Hnp : plain (match n with c :: _ => if is_adigit c then lit "_" ++ n else n | [] => n end) = true).
+  { destruct n as [|c r]; [reflexivity|]. destruct (is_adigit c); [|exact Hcp]. now rewrite c15_plain_app, Hcp. }
+  unfold sw_variant_ok. cbn [swv_name swv_raw swv_payload sw_payload_ok]. rewrite andb_true_r.
+  apply andb_true_iff. split; [exact Hnp|].
+  match goal with |- context [str_eqb ?a ?b] => destruct (str_eqb a b) end; [reflexivity|exact Hq].
 Qed.
 
 Lemma sw_variant_ok_ir sh v st x st' :
